@@ -260,3 +260,59 @@ def r6(ctx):
         yield MISSING("C17-R6", "presented/floor", "only %d renderings of the presented signature found (2 counted by hand: the authenticator at trace, the mismatch line at trace)" % n)
     elif not bad:
         yield PASS("C17-R6", "presented-signature/trace-only", "%d rendering(s) of the presented signature, all inside trace-level log calls" % n, [])
+
+
+KEY_EXPORTS = r"^<signing_key::K\w+Key(<M>)? as std::convert::AsRef<\[u8(; \w+)?\]>>::as_ref$"
+
+
+@M.rule("C17-R7", "who may hand out raw key bytes: the key types' AsRef impls and nothing else")
+def r7(ctx):
+    """The redaction of C17-R3 lives in the key types' hand-written Debug / Display. A value of any other type that holds
+    the bytes - `impl From<KSigningKey> for [u8; 32]`, a field `signing_key: [u8; 32]` with a derived Debug - is printed
+    in full by `{:?}`. Every function that reads a raw key field and returns something that is not itself a key type is
+    therefore an export point; the reviewed tree has exactly the five `AsRef<[u8]>` impls (whose results the secret-flow
+    rules follow). A new one is reported."""
+    st = SecretTaint(ctx.facts)
+    n = 0
+    bad = 0
+    for body in ctx.facts.all_bodies():
+        if body.kind not in ("Fn", "AssocFn"):
+            continue
+        reads_raw = False
+        for bi, i, s in body.stmts():
+            if s["k"] != "assign":
+                continue
+            ops, places = rv_operands(s["rv"])
+            for p in [op_place(o) for o in ops] + places:
+                if p is not None and raw_field_source(p, body):
+                    reads_raw = True
+        if not reads_raw:
+            continue
+        tainted = st.taint(body)
+        rty = body.local_ty(0) or ""
+        ret_tainted = 0 in tainted or any(s["k"] == "assign" and s["place"]["local"] == 0 and any(p is not None and raw_field_source(p, body) for p in [op_place(o) for o in rv_operands(s["rv"])[0]] + rv_operands(s["rv"])[1]) for _, _, s in body.stmts())
+        if not ret_tainted:
+            continue
+        inner = re.sub(r"^std::result::Result<(.*), [^,]*>$", r"\1", rty)
+        if is_key_type(inner) or is_key_type(rty):
+            continue  # a derived key: still a redacting type
+        if re.search(r"as std::fmt::(Debug|Display)>::fmt$|as std::cmp::PartialEq>::(eq|ne)$|as std::clone::Clone>::clone$", body.path):
+            continue  # judged by R3 / C07-R2b; Clone returns the key type
+        n += 1
+        ctx.count()
+        if not re.search(KEY_EXPORTS, body.path):
+            bad += 1
+            yield VIOL("C17-R7", "key-export/" + body.path, "`%s` reads a raw key field and returns `%s`: the bytes leave the redacting key types (a derived Debug of whatever holds them prints the key)" % (body.path, rty), where=loc(body.j["span"]))
+    if n < 5 and not bad:
+        yield MISSING("C17-R7", "key-export/floor", "only %d export points found (the 5 AsRef impls were counted by hand)" % n)
+    elif not bad:
+        yield PASS("C17-R7", "key-export/inventory", "%d functions hand out raw key bytes: the key types' AsRef impls only" % n, [])
+    # ... and no crate type other than the key types has a raw byte-array field named like / fed like a key: structural
+    # half - GetSigningKeyResponse.signing_key is a KSigningKey
+    a = ctx.facts.adts.get("signing_key::GetSigningKeyResponse")
+    if a:
+        ftys = {f["name"]: f.get("ty", "") for v in a["variants"] for f in v["fields"]}
+        if "signing_key" in ftys and not is_key_type(ftys["signing_key"]):
+            yield VIOL("C17-R7", "response-field/signing_key", "GetSigningKeyResponse.signing_key has type `%s`, not the redacting KSigningKey: the response's derived Debug prints the key" % ftys["signing_key"], where=loc(ctx.fn("signing_key::GetSigningKeyResponse::signing_key").j["span"]))
+        elif "signing_key" in ftys:
+            yield PASS("C17-R7", "response-field/signing_key", "GetSigningKeyResponse.signing_key: %s" % ftys["signing_key"], [])
